@@ -450,3 +450,135 @@ def _under_elapsed_test(ctx, f, blk):
         if not good:
             return False
     return True
+
+
+# ================================================================ C10-K4
+class _NoCallKills:
+    """Mod summaries that report no writes: used to follow the *dispatch decision* taken on a
+    state field at the top of a function, not the field's current value."""
+
+    def __init__(self, mods):
+        self._m = mods
+
+    def of(self, norm):
+        return set()
+
+    def _self_name(self, fn):
+        return self._m._self_name(fn)
+
+
+@rule("C10", "C10-K4", 2, "the Cancelled arm of the timeout dispatch never runs the fault handler at a limit (whose default action is to cancel again): it abandons", also=("C17",))
+def c10_k4(ctx):
+    from common import val_not
+
+    for adt, nm, fld in ((RECV, "RecvTransaction", "self.recv_state"), (SEND, "SendTransaction", "self.send_state")):
+        f = ctx.one("C10-K4", nm + "::handle_timeout")
+
+        def track(key, fld=fld):
+            return key[0] == "val" and key[1] == fld
+
+        if any(True for _ in field_writes([f], fld)):
+            yield undecided("C10-K4", "%s::handle_timeout:dispatch" % nm, at(f), "%s is assigned inside handle_timeout: the dispatch decision cannot be followed" % fld)
+            continue
+        fl = Flow(ctx.prog, _NoCallKills(ctx.mods), f, track)
+        n = 0
+        cnt = {}
+        for f2, b, t, d, r in call_sites([f], ends(nm + "::handle_fault"), ctx.prog):
+            n += 1
+            e = ExprBuilder(ctx.prog, f).call(b, t)
+            c = e[3][1][3] if len(e[3]) > 1 and e[3][1][0] == "agg" else "?"
+            base = "%s::handle_timeout:handle_fault(%s)" % (nm, c)
+            cnt[base] = cnt.get(base, 0) + 1
+            key = base + ("#%d" % cnt[base] if cnt[base] > 1 else "")
+            worlds = fl.at_term(b)
+            good, w = all_worlds_satisfy(worlds, lambda dw: val_not(dw, fld, {"Cancelled"}))
+            if good and worlds:
+                yield ok("C10-K4", key, at(f, t["span"]["line"]), "not on the Cancelled arm of the dispatch")
+            else:
+                yield bad("C10-K4", key, at(f, t["span"]["line"]), "on the Cancelled arm of the timeout dispatch a limit runs the fault handler: with the default action (Cancel) the cancellation is restarted instead of abandoned and the transaction never ends (dispatch state %s)" % (world_str(w) if w is not None else "unreachable"))
+        if n == 0:
+            yield ok("C10-K4", "%s::handle_timeout:no-fault" % nm, at(f), "handle_timeout declares no fault", nontrivial=False)
+
+
+# ================================================================ C17-H8
+@rule("C17", "C17-H8", 2, "when a NAK goes out after new data arrived the NAK count is reset; it is merely restarted (count kept) only when nothing arrived since the previous NAK")
+def c17_h8(ctx):
+    f = ctx.one("C17-H8", "RecvTransaction::send_naks")
+
+    def track(key):
+        return key[0] == "expr" and "nak_received_file_size" in key[1] and "received_file_size" in key[1]
+
+    fl = Flow(ctx.prog, ctx.mods, f, track)
+    n = 0
+
+    def same(dw, want):
+        for k, (pos, s) in dw.items():
+            if k[0] == "expr" and k[1].startswith("Eq(") and pos and s == frozenset([1 if want else 0]):
+                return True
+            if k[0] == "expr" and k[1].startswith("Ne(") and pos and s == frozenset([0 if want else 1]):
+                return True
+        return False
+
+    for b, t in f.all_calls():
+        d, r, _ = ctx.prog.callee_of(t)
+        cal = (r or d or "").split("::")[-1]
+        if cal not in ("restart_nak", "reset_nak"):
+            continue
+        n += 1
+        worlds = fl.at_term(b)
+        key = "RecvTransaction::send_naks:%s" % cal
+        if cal == "restart_nak":
+            good, w = all_worlds_satisfy(worlds, lambda dw: same(dw, True))
+            if good and worlds:
+                yield ok("C17-H8", key, at(f, t["span"]["line"]), "count kept only when no new data arrived since the last NAK")
+            else:
+                yield bad("C17-H8", key, at(f, t["span"]["line"]), "the NAK count is kept (restart) on a path where new data may have arrived since the previous NAK: progress no longer resets the limit count")
+        else:
+            good, w = all_worlds_satisfy(worlds, lambda dw: same(dw, False))
+            if good and worlds:
+                yield ok("C17-H8", key, at(f, t["span"]["line"]), "count cleared when new data arrived")
+            else:
+                yield bad("C17-H8", key, at(f, t["span"]["line"]), "the NAK count is cleared although nothing arrived since the previous NAK: the limit could never be reached")
+    # the progress branch must reset: every path on which data arrived passes reset_nak
+    resets = {b for b, t in f.all_calls() if (ctx.prog.callee_of(t)[1] or ctx.prog.callee_of(t)[0] or "").endswith("Timer::reset_nak")}
+    for b in f.live_blocks():
+        t = f.blocks[b]["term"]
+        if t["k"] == "switch":
+            e = expr_str(ExprBuilder(ctx.prog, f).operand(t["discr"]))
+            if e.startswith("Eq(") and "nak_received_file_size" in e:
+                ne_target = [tb for v, tb in t["targets"] if v == 0]
+                if ne_target:
+                    r2 = f.reachable(ne_target[0], avoid=resets)
+                    if any(f.blocks[x]["term"]["k"] == "return" for x in r2):
+                        yield bad("C17-H8", "RecvTransaction::send_naks:progress-resets", at(f, t["span"]["line"]), "on the 'new data arrived' edge a path returns without reset_nak()")
+                    else:
+                        yield ok("C17-H8", "RecvTransaction::send_naks:progress-resets", at(f, t["span"]["line"]), "every 'new data arrived' path passes reset_nak()")
+    if n == 0:
+        raise Anchor("C17-H8", "restart_nak / reset_nak in send_naks")
+
+
+# ================================================================ C19-C
+@rule("C19", "C19-C", 2, "the limit timers are only ever re-armed with a fresh start time (reset / restart); a bare start() - which would count the time spent suspended - is used only on a counter created in the same function", also=("C17",))
+def c19_c(ctx):
+    n = 0
+    for adt, nm in TXNS:
+        for f in impl_and_closures(ctx, adt):
+            eb = ExprBuilder(ctx.prog, f, user_stop=True)
+            for b, t in f.all_calls():
+                d, r, _ = ctx.prog.callee_of(t)
+                if not (r or d or "").endswith("Counter::start"):
+                    continue
+                n += 1
+                e = eb.call(b, t)
+                recv = expr_str(e[3][0]).replace("&mut ", "")
+                key = "%s::%s:start(%s)" % (nm, f.name, recv)
+                fresh = False
+                if re.match(r"^\w+$", recv):
+                    ds = [expr_str(x) for x in eb.var_defs(recv)]
+                    fresh = bool(ds) and all(x.startswith("Counter::new(") for x in ds)
+                if fresh:
+                    yield ok("C19-C", key, at(f, t["span"]["line"]), "started right after Counter::new")
+                else:
+                    yield bad("C19-C", key, at(f, t["span"]["line"]), "Counter::start on %s un-pauses the counter with its old start time: the time spent paused (suspended) counts as elapsed expirations" % recv)
+    if n == 0:
+        raise Anchor("C19-C", "Counter::start call sites")
